@@ -165,6 +165,24 @@ P("C19",
   level_note="Partial by nature: escape analysis, interface boxing and append's growth policy belong to the compiler and runtime; the theorem covers the slot/buffer-reuse logic only, the measurement covers sampled templates (data kinds whose generated inspectors do not allocate by themselves: no map-typed fields).",
   design_ref="5 C19", trusted_base=[KERNEL, HARNESS, "testing.AllocsPerRun", "verif-tagged VerifCtxSlots hook"],
   assumptions=["inspectors of the data do not allocate (slices and structs of koykov/inspector's testobj; maps excluded)"])
+# ---- additions of the build phase (kept separate so that the texts above stay as reviewed) ----
+PROPS["C01"]["level_text"] += (" Also proved (Proofs/PreprocProofs.v) about Model/Preproc.v, the parser's source clean-up: comments of the form {#...#} are removed and nothing else (no-opener identity, removal equation, unterminated case), line breaks with the white space after them are removed and nothing else (no line feed in the result, identity without line feeds, the line-break-and-indentation equation, idempotence), trimming is an infix, and the whole clean-up only ever deletes bytes (sub-sequence); every run compares Model/Preproc.v with the real cutComments/cutFmt byte for byte on generated sources (hook VerifPreprocess), and parses every source under both keep-format settings.")
+PROPS["C02"]["level_text"] += " Central theorem (Proofs/Refine*.v): for every supported template the interpreter model refines the reference semantics (output, final store, signal); corollaries C02_if_refines, C02_ternary_refines, C02_switch_refines, C02_ifok_refines; C02_branch_by_operands holds for every value of the scratch buffer and error register."
+PROPS["C03"]["level_text"] += " C03_cloop_refines / C03_rloop_refines / C03_interp_refines_ref: loops of the model refine the reference semantics (iterations, separators escaped like text inside bound tags, else iff no iteration, break-depth bookkeeping, the loop variable as a live cell), by induction on fuel and on the element list."
+PROPS["C05"]["level_text"] += (" History level (Proofs/HistoryProofs.v): clear_log (ctx_reset (clear_log c)) = ctx_new for every c; for every history, whatever the steps before a reset, the steps after it are judged exactly as on a new context (C05_history_after_reset, with the set-aside case stated and the unconditional form refuted); rendering never reads the event log (C05_log_does_not_influence_rendering). Re-proved from the source on every run: Reset's body touches every field classified as cleared or truncated, and every setter block leaves exactly one live representation in a slot. "
+                               "Each run also walks all 13 x 13 slot transitions across a reset, and keeps the bytes Render returned until the end of the history.")
+PROPS["C05"]["level_note"] = PROPS["C05"]["level_note"].replace("it is covered by the harness only (Render copies into a caller-owned buffer).", "it is checked on the real engine only: the slices Render returned are retained without copying and compared at the end of every history.")
+PROPS["C11"]["level_text"] += " C11_run_mods_refines, C11_letters_after_mods, C11_print_refines: chains run left to right before any letter, each letter run is the n-fold escape, for every pure modifier chain (refinement of the reference semantics). Re-proved from the source on every run: every modifier the library registers is accounted for (in the interpreter model, in a model of its own, measured only, or outside the properties)."
+PROPS["C13"]["level_text"] += " Re-proved from the source on every run: every node type constant and every error value of the code is the one the model knows. Each run also renders edge templates for every error branch of the interpreter that generated templates do not reach (found by a statement-coverage measurement), every way of writing brackets in a path inside and outside counter loops, and every generated case a second time on a context that was used and reset."
+PROPS["C14"]["level_text"] += " C14_break_refines, C14_continue_refines (with their conditional forms), C14_break_keeps_pending_depth, C14_break_inside_ifok: the signals and the depth register of the model refine the reference semantics, including two interacting instructions in one iteration."
+PROPS["C15"]["level_text"] += " C15_ctx_refines, C15_counter_refines, C15_ctx_copies_loop_cell, C15_ctx_node_no_new_cell: assignments of the model are the reference's env_set, and a ctx assignment never creates an alias of a loop counter. Re-proved from the source on every run: every setter block leaves exactly one live representation."
+PROPS["C16"]["level_text"] += " C16_include_is_inlining, C16_render_refines, C16_exit_refines, C16_exit_inside_ifok: an include of the model is the inlined evaluation of the reference semantics at every include depth; exit propagates out of every construct including if-ok blocks."
+PROPS["C17"]["level_text"] += " The fault theorems quantify over every node, if-ok blocks included (C17_fault_inside_ifok_is_writer_error). Each run also ends templates in loops whose last event is a print after a lazybreak, and runs modifiers that defer functions under the fault sweep."
+PROPS["C18"]["level_text"] += " History level (Proofs/HistoryProofs.v): an included template never runs deferred functions (C18_deferred_run_at_depth_zero_only); a successful outermost render runs exactly the pending and newly registered ones once, in order, and a failed one runs none and keeps them (C18_deferred_each_once); over a reset-free segment the held pooled objects are exactly the acquired ones and the reset releases each once (C18_pools_held_between_resets, C18_reset_releases_each_once)."
+PROPS["C20"]["level_text"] += (" Arithmetic (Model/Arith.v on Flocq binary64, Proofs/ArithProofs.v): add, sub, mul, div and sqrt are the correctly rounded real operation (overflow to the signed infinity otherwise), inc/dec never overflow, abs/max/min follow the Go functions on zeros, infinities and NaN, integers convert exactly up to 2^53 and correctly rounded up to 2^64, add and mul commute; every run compares the engine's printed results with the model bit for bit on boundary operands over every carrier type, zero-padded numeric strings included.")
+PROPS["C06"]["level_text"] += " The exploration also flips one name between two fixed sources (re-parsed each time): its writer must see its own registration at once, other renderers one of the two versions."
+for _p in ("C07", "C08", "C09", "C10"):
+    PROPS[_p]["level_text"] += " Every run re-evaluates a sample of the extracted driver's answers inside Coq by vm_compute over the same definitions (extraction cross-check)."
 PROPS["C05"]["srcfacts"] = True
 PROPS["C15"]["srcfacts"] = True
 for _p in ("C13", "C17", "C11", "C20"):
